@@ -174,6 +174,7 @@ class State:
         self.notes: List[str] = []
         self.effects: List[Tuple[str, Any]] = []
         self.call_memo: Dict[int, Any] = {}               # results of calls that forked (see with_forks)
+        self.globals: Dict[Tuple[str, str], Any] = {}     # module-level mutable objects touched in this run (shared by all frames)
 
     @property
     def env(self) -> Dict[str, Any]:
@@ -363,6 +364,13 @@ class Interp:
             self.steps = 0
         st = State() if state is None else state
         env = dict(self.module_env(rel))
+        for k, v in list(env.items()):
+            if isinstance(v, (CellV, ListV)):
+                # a module-level mutable object: one instance per abstract run, visible to every frame
+                key = (rel, k)
+                if key not in st.globals:
+                    st.globals[key] = copy.deepcopy(v)
+                env[k] = st.globals[key]
         params = fn.args.args
         defaults = fn.args.defaults
         nd = len(defaults)
@@ -525,6 +533,16 @@ class Interp:
                 base.stores.append((idx, v, state.binders))
                 state.effects.append(("store", (base, idx, v, state.binders)))
                 return
+            if isinstance(base, CellV):
+                if isinstance(idx, StrV):
+                    base.fields[idx.text] = v
+                    if state.binders:
+                        # valid for the rest of this (generic) iteration; after the loop it is the last iteration's value
+                        state.effects.append(("cell-store-in-loop", (base, idx.text, len(state.binders))))
+                else:
+                    for k in list(base.fields):
+                        base.fields[k] = Unknown("dictionary written with a computed key")
+                return
             state.effects.append(("store-unmodelled", (core.src(target), v)))
             if isinstance(base, (GenericList, TableV)):
                 state.effects.append(("mutates-input", core.src(target)))
@@ -623,6 +641,10 @@ class Interp:
                         self._poison(s2, assigned, "data-dependent branch inside summarised loop")
                 for s2, _ in falls:
                     s2.binders = saved_b
+                    depth_here = len(saved_b) + len(binders)
+                    for kind, payload in s2.effects:
+                        if kind == "cell-store-in-loop" and payload[2] >= depth_here:
+                            payload[0].fields[payload[1]] = Unknown("value left by the last iteration of a summarised loop")
                     # loop-carried scalars are not summarised
                     for k in assigned:
                         v_after = s2.env.get(k)
